@@ -224,3 +224,6 @@ func zzService(ver auth.Verifier, pm *plugin.Manager) *Service {
 }
 
 func zzNoPlugins() *plugin.Manager { return plugin.NewManager() }
+
+// stub for k8s validation.IsQualifiedName (regular expressions are not encoded)
+func zzStubIsQualifiedName(value string) []string { return nil }
